@@ -54,7 +54,8 @@ def key_records(fams: dict[str, dict[int, dict]], kinds: dict[str, dict],
                 rec = {"id": fid if not by_export else f"{fid}#{len(by_export)}",
                        "rel": "keys", "kind": r["kind"], "ctx": r["ctx"],
                        "names": r["names"], "nodes": r["nodes"], "roots": r["roots"],
-                       "canonM": k["canon"], "strictM": k["strict"], "obs": [],
+                       "canonM": c04._pad_identity(k["canon"], len(r["names"])),
+                       "strictM": c04._pad_identity(k["strict"], len(r["names"])), "obs": [],
                        "seeds": [], "errors": []}
                 by_export[sig] = rec
             key = ["error" if x.startswith("error") else x for x in r["key"]]
